@@ -225,7 +225,8 @@ static int json_patch_apply_move_copy(struct json_object **res,
 	}
 
 	from_s_len = strlen(from_s);
-	if (strncmp(from_s, path, from_s_len) == 0) {
+	if (strncmp(from_s, path, from_s_len) == 0 &&
+	    (path[from_s_len] == '\0' || path[from_s_len] == '/')) {
 		/**
 		 * If lengths match, it's a noop, if they don't,
 		 * then we're trying to move a parent under a child
